@@ -15,6 +15,7 @@ import SkgVerif.Model.SpaceTime
 import SkgVerif.Model.Propagate
 import SkgVerif.Gen.ModelsExec
 import SkgVerif.Gen.STModelsExec
+import SkgVerif.Gen.Source
 /-!
 # Line protocol handlers (one request line → one response line)
 
@@ -392,6 +393,9 @@ def handleC19 : List String → Option String
       let b := bounds xs q
       let d := boundsDefect xs q
       some s!"ok|{fmtRat b.1} {fmtRat b.2.1} {fmtRat b.2.2}|{fmtRat d.1} {fmtRat d.2.1} {fmtRat d.2.2}"
+  | ["targets", req] =>
+      -- which interval matrices a call with the requested targets returns, in the order of the result list
+      some s!"ok|{" ".intercalate (targetsOut Gen.propagateTargets (tokens req))}"
   | _ => none
 
 end Skg
